@@ -68,9 +68,9 @@ def build_and_validate_headers(headers: Iterable[Tuple[bytes, bytes]]) -> List[T
     # Validates that the header name and value are bytes
     validated_headers: List[Tuple[bytes, bytes]] = []
     for name, value in headers:
-        if name[0] == b":"[0]:
-            raise ValueError("Pseudo headers are not valid")
         header = (bytes(name).strip(), bytes(value).strip())
+        if header[0][0] == b":"[0]:
+            raise ValueError("Pseudo headers are not valid")
         for part in header:
             if b"\r" in part or b"\n" in part or b"\0" in part:
                 raise ValueError("Header names and values must not contain CR, LF or NUL")
